@@ -1,7 +1,7 @@
 """C13 (pointwise form): for the f32 instantiation of Cauchy, Pareto, Weibull, Gumbel, Frechet, Triangular every one of
 the 2^24 values of the uniform draw is pushed through sample(); spec/Kolmogorov.tla states |Fn(x) - F(x)| <=
 2^-24 (1.5 + 8 sup|x f(x)|) at the anchors of spec/KolmogorovTable.tla (f32 values x from F = 2^-20 to 1 - 2^-20,
-48 dyadic parameter points; F and the bound are mpmath constants), Fn(x) is an exact count, TraceKolmogorov.tla judges."""
+52 dyadic parameter points; F and the bound are mpmath constants), Fn(x) is an exact count, TraceKolmogorov.tla judges."""
 import json
 from common import *
 
